@@ -405,10 +405,18 @@ func runCheck(repo, prop, tier string, keep bool, only string, noEvidence bool) 
 			// contradictory assumptions: every obligation of this function is vacuous
 			fmt.Printf("ERROR inconsistent-assumptions: %s (contracts, type invariants or library models contradict each other; nothing proved about this function is believed)\n", fr.Name)
 			inconsistent++
+			oname := fr.Name + "#inconsistent-assumptions"
+			path := writeReplay(prop, oname, map[string]interface{}{"property": prop, "obligation": oname, "kind": "vacuity", "reason": "the assumptions of this function (contracts of callees, type invariants, library models, its own requires) are contradictory on the current tree: every obligation of the function passes vacuously, so nothing is decided"})
+			violations = append(violations, fmt.Sprintf("VIOLATION property=%s replay=%s no-failing-input-found", prop, path))
 		}
 		for _, v := range fr.VacuousAt {
 			fmt.Printf("ERROR vacuous-path: %s is at a program point that the accumulated assumptions make unreachable (a contract, invariant or library model is contradictory on this path)\n", v)
 			inconsistent++
+		}
+		if len(fr.VacuousAt) > 0 {
+			oname := fr.Name + "#vacuous-path"
+			path := writeReplay(prop, oname, map[string]interface{}{"property": prop, "obligation": oname, "kind": "vacuity", "reason": "obligations of this function sit at program points that the accumulated assumptions make unreachable on the current tree (the code no longer agrees with a contract, invariant or library model it is verified against): they pass vacuously, so nothing is decided", "obligations": fr.VacuousAt})
+			violations = append(violations, fmt.Sprintf("VIOLATION property=%s replay=%s no-failing-input-found", prop, path))
 		}
 		havoc += fr.HavocSites
 		for _, l := range fr.UsedLib {
